@@ -93,7 +93,7 @@ CHECKS = {
    design="DESIGN.md section 4 (C18)"),
  "C01": dict(
    level="exploration",
-   text="The first ~3100 runs of every batch enumerate every built-in with 1, 2 and 3 arguments, every operator, method and accessor over argument lattices (73 / 27 / 10 values: typed and untyped nulls, boundary integers, inf / nan, empty and structured values), each statement with operands in place and again with operands held in variables, one unit per statement. Then: generated programs over the whole statement / operator / built-in / method vocabulary (every builtin and member method with arguments from a lattice of typed and untyped nulls, 0, +-1, powers of two and their neighbours, INT64_MIN/MAX, +-0.0, 4.9e-324, inf and nan producing expressions, empty and huge positions, empty/one-element tables, tuples, bytes) and generated well-formed programs of the common generator are damaged at the stream level (byte flips, token splices between two programs, duplicated / dropped / swapped tokens, truncation, unterminated strings and comments) and delivered under seeded fragmentation through four routes: Parser::parse + Executable::run on the library, statement-at-a-time units in one context, the C API (bloc_parse_executable / bloc_execute) and the bloc command's main() run in-process on the text as a program file. The monitor is ASan + UBSan (halt on error) plus 'no exception other than ParseError / RuntimeError reaches the harness'; a statement-step budget ends non-terminating damaged programs. Nesting depth and requested sizes are bounded as the property's domain demands. In addition the same monitor is evaluated in every run of every other check.",
+   text="The first ~3500 runs of every batch enumerate every built-in with 1, 2 and 3 arguments, every operator, method and accessor over argument lattices (73 / 27 / 11 values: typed and untyped nulls, boundary integers, inf / nan, empty and structured values), each statement with operands in place and again with operands held in variables, one unit per statement. Then: generated programs over the whole statement / operator / built-in / method vocabulary (every builtin and member method with arguments from a lattice of typed and untyped nulls, 0, +-1, powers of two and their neighbours, INT64_MIN/MAX, +-0.0, 4.9e-324, inf and nan producing expressions, empty and huge positions, empty/one-element tables, tuples, bytes) and generated well-formed programs of the common generator are damaged at the stream level (byte flips, token splices between two programs, duplicated / dropped / swapped tokens, truncation, unterminated strings and comments) and delivered under seeded fragmentation through four routes: Parser::parse + Executable::run on the library, statement-at-a-time units in one context, the C API (bloc_parse_executable / bloc_execute) and the bloc command's main() run in-process on the text as a program file. The monitor is ASan + UBSan (halt on error) plus 'no exception other than ParseError / RuntimeError reaches the harness'; a statement-step budget ends non-terminating damaged programs. Nesting depth and requested sizes are bounded as the property's domain demands. In addition the same monitor is evaluated in every run of every other check.",
    note="The vocabulary sweep is plain seeded generation (labelled so in the evidence probes); the simulator's own contribution is the delivery dimension (fragmentation, damage, routes). Trusted: sanitizer coverage of the executed paths; builtins that read process-global inputs (random, getenv, getsys, input, read, readln) are not generated.",
    technique="deterministic simulation: seeded vocabulary/boundary programs damaged at the stream level and delivered fragmented through library, unit-wise, C API and CLI routes; ASan+UBSan and foreign-exception monitor",
    design="DESIGN.md section 4 (C01)"),
